@@ -320,9 +320,6 @@ theorem verdict_iff_partial (s : SchemaD) (fx : Fixes) (d : Doc) :
     rule_unique_argument_names_iff, rule_unique_directives_per_location_iff, rule_single_field_subscriptions_iff,
     rule_known_type_names_iff, rule_variables_are_input_types_iff]
 
-/-- every rule of the chain is either proved (`LocalProved`) or listed in `Spec.Unproved` -/
-theorem proved_or_listed : ∀ r ∈ Rule.all, r ∈ LocalProved ∨ r.name ∈ Spec.Unproved := by decide
-
 /-! non-vacuity -/
 example : Spec.uniqueArgumentNames ⟨[.op "query" none [] [] 0 [.field none "a" [⟨"x", .int "1"⟩, ⟨"y", .int "2"⟩] [] false 0 []]]⟩ := by
   unfold Spec.uniqueArgumentNames
